@@ -53,6 +53,11 @@ TInit ==
               outs0 |-> IF Has(e, "outs") THEN e.outs ELSE <<>>,
               cbal0 |-> IF Has(e, "contracts") THEN [c \in DOMAIN e.contracts |-> e.contracts[c].bal] ELSE <<>>, fin |-> <<>>]
     /\ e.regs[HP + 1] = BN!FromNat(e.hp)
+\* the harness writes operand bytes into accessible memory (an environment action, like Poke)
+TMemPoke ==
+    /\ IsEv(l, "MemPoke")
+    /\ ReadPanics(vm, BN!FromNat(e.addr), BN!FromNat(BLen(e.bytes))) = {}
+    /\ vm' = [vm EXCEPT !.mem = WriteBytes(vm.mem, e.addr, e.bytes)]
 TPoke ==
     /\ IsEv(l, "Poke")
     /\ vm' = [vm EXCEPT !.regs = ObservedRegs(vm)]
@@ -259,6 +264,7 @@ TClientTx ==
 TRunSummary ==
     /\ IsEv(l, "RunSummary")
     /\ e.nrc <= ReceiptLimit
+    /\ (Has(e, "rc_all") => (Len(e.rc_all) = e.nrc /\ e.receipts_root = MT!MTH(e.rc_all)))   \* C09 / C28: the committed root also at the limit
     /\ Len(e.tail) = 2 /\ e.tail[2].kind = "ScriptResult"
     /\ IF e.loops + 2 <= ReceiptLimit
        THEN e.logs = e.loops /\ e.nrc = e.loops + 2 /\ e.tail[1].kind = "Return" /\ e.tail[2].result = "Success"
@@ -302,7 +308,7 @@ TBpRun ==
        IN e.breaks = SelectSeq(vis, LAMBDA x : x \in bps)
     /\ UNCHANGED <<vm, refs>>
 
-TrNext == \/ ((TInit \/ TPoke \/ TStepExec \/ TClientTx \/ TRunSummary) /\ UNCHANGED refs /\ l' = l + 1)
+TrNext == \/ ((TInit \/ TMemPoke \/ TPoke \/ TStepExec \/ TClientTx \/ TRunSummary) /\ UNCHANGED refs /\ l' = l + 1)
           \/ ((TSeg \/ TStepRun \/ TFinal \/ TReplica \/ TReplicaReceipts \/ TBpRun) /\ l' = l + 1)
 TrSpec == TrInit /\ [][TrNext]_trVars
 =============================================================================
